@@ -128,9 +128,9 @@ Inductive error :=
 | EMissing (secs : list (list ascii))
     (* model.go loadModelFromConfig: fmt.Errorf("missing required sections: %s", ...) *)
 | EFuel.
-    (* never produced by the Go code: the loadSection loop of the model ran out of fuel
-       (fuel = number of configuration entries + 1 always suffices; kept explicit so that a
-       wrong bound would show up in the correspondence check instead of being hidden) *)
+    (* not an error of the Go code: the loadSection loop of the model ran out of fuel.  With
+       fuel = number of configuration entries + 1 this never happens (ConfigProofs.fuel_suffices);
+       it is kept explicit so that nothing is hidden by totalisation *)
 (* The third error of parseBuffer, a read error other than io.EOF, cannot occur on the
    strings.Reader that NewConfigFromText uses. *)
 
@@ -329,15 +329,22 @@ Definition sec_name (sec : str) : str :=
   else if str_eqb sec s_m then n_matchers
   else [].
 
-(* strconv.Itoa for a natural number *)
-Fixpoint dec_go (fuel n : nat) (acc : str) : str :=
-  match fuel with
-  | 0 => acc
-  | S f =>
-      let acc' := ascii_of_nat (48 + Nat.modulo n 10) :: acc in
-      if Nat.ltb n 10 then acc' else dec_go f (Nat.div n 10) acc'
+(* strconv.Itoa for a natural number: the decimal digits of Coq's own nat -> decimal conversion *)
+Fixpoint uint_digits (u : Decimal.uint) : str :=
+  match u with
+  | Decimal.Nil => []
+  | Decimal.D0 u => "0"%char :: uint_digits u
+  | Decimal.D1 u => "1"%char :: uint_digits u
+  | Decimal.D2 u => "2"%char :: uint_digits u
+  | Decimal.D3 u => "3"%char :: uint_digits u
+  | Decimal.D4 u => "4"%char :: uint_digits u
+  | Decimal.D5 u => "5"%char :: uint_digits u
+  | Decimal.D6 u => "6"%char :: uint_digits u
+  | Decimal.D7 u => "7"%char :: uint_digits u
+  | Decimal.D8 u => "8"%char :: uint_digits u
+  | Decimal.D9 u => "9"%char :: uint_digits u
   end.
-Definition dec (n : nat) : str := dec_go (S n) n [].
+Definition dec (n : nat) : str := uint_digits (Nat.to_uint n).
 
 (* sec + getKeySuffix(i) *)
 Definition key_of (sec : str) (i : nat) : str :=
@@ -532,6 +539,31 @@ Definition wf_lsec := wf_lsec_g true.
 Definition wf_layout := wf_layout_g true.
 
 Definition wf_ldoc (l : ldoc) : bool := wf_doc (erase l) && wf_layout l.
+
+(** ** Vocabulary of the statements about arbitrary texts *)
+
+(* what ReadLine removes from a terminated line besides the "\n": one "\r" in front of it *)
+Fixpoint strip_cr (x : str) : str :=
+  match x with
+  | [] => []
+  | c :: t => match t with
+              | [] => if Ascii.eqb c CR then [] else [c]
+              | _ => c :: strip_cr t
+              end
+  end.
+
+(* what a (trimmed) physical line contributes to the definition under construction: nothing for
+   blank, comment and header lines; otherwise the line up to its in-line comment, where a
+   trailing continuation backslash and the blanks in front of it count as one space *)
+Definition payload (l : str) : str :=
+  if is_skip l then [] else if is_header l then []
+  else cut_comment (if ends_with "\" l then trim (removelast l) ++ [SP] else l).
+
+(* the untrimmed text of one AddConfig call: option '=' value *)
+Definition raw_text (e : str * str * str) : str := snd (fst e) ++ "="%char :: snd e.
+
+(* every byte except the two line-terminator bytes *)
+Definition keep_byte (c : ascii) : bool := negb (Ascii.eqb c LF) && negb (Ascii.eqb c CR).
 
 (* the plainest layout of a document: "[name]", "key = value", LF, final newline *)
 Definition canon_def (kv : str * str) : ldef := mkLdef [] [] (fst kv) [SP] [SP] (snd kv) [] [].
